@@ -12,988 +12,1037 @@ Definition show_fres (r : fres) : string :=
   end.
 Definition check (rs : list rune) : string := digest (show_fres (format_res rs)).
 Definition full (rs : list rune) : string := show_fres (format_res rs).
-Eval vm_compute in ("<<<M271>>>" ++ check (runes_of_ascii "// packet A { u8 x, }
-packet string_ {
-@tag( 4294967296)
-@calculatedFrom( """ ++ [128512]%N ++ runes_of_ascii """ )@calculatedFrom( ""1"" )  leftPad @lengthOf( //	t
-int )  ``
-// `tick` ""quote"" 'q'
-//
-, repeat Packet{ zchar[
-0
-    // packet A { u8 x, }
-    ]options1 `line1
-line2` , },
-    @calculatedFrom( """"	) float32
-    u8x
-    ,
-float , i64_
-{ packetx {  i16	falsey, f32 repeatCount
-    `{ , }`,} ,
-    repeat char[
-0  ] i8i8, string	o @lengthOf( options1 ) , } , i64_
-@calculatedFrom(""a\""b"" )
-/// triple
-//x
-`a\`  , @rightPad ( )@lengthOf( packetx
-    )
-match matchKey as stringy{ ""a	b"":
-body,}
-    ,
-    // " ++ [27880; 37322]%N ++ runes_of_ascii "
-    @lengthOf(
-u128
-) @calculatedFrom(
-    ""`tick`"" ) @rightPad
-    () // @lengthOf(
-repeat falsey
-string_ `" ++ [28040; 24687; 31867; 22411]%N ++ runes_of_ascii "`
-    ,string As`it's`
-    ,
-@calculatedFrom( """ ++ [28040; 24687]%N ++ runes_of_ascii """ ) repeat rootA { float64
-body	,
-} , } options {zchar
-=
-    // " ++ [128512]%N ++ runes_of_ascii " emoji
-    true  ;  i8i8= 3; } packet	leftPad{	@calculatedFrom(
-    // c
-    """" ) //x
-@leftPad( ' ' )
-@calculatedFrom(
-""abc"" ) repeat MetaDataX{  char[] Pad , body
-@lengthOf( Foo )
-/// triple
-/// triple
-,uint64 i8i8 ,char[ 42 ]options1
-@calculatedFrom( ""x y""
-),}
-,
-} packet stringy
-    /// triple
-    {	@calculatedFrom( """ ++ [28040; 24687]%N ++ runes_of_ascii """ )BodyLength	len
-    ,@lengthOf(
-u
-    ) i8i8
-metadata
-, @calculatedFrom(
-""a\\""
-) //x
-packetx
-    ,
-    f64 i8i8	@lengthOf( Header
-    )
-    , metadata
-`
-`,@lengthOf( int ) repeat falsey	,
-repeat char[]
-trueish
-,
-    }
-")).
-Eval vm_compute in ("<<<M387>>>" ++ check (runes_of_ascii "options {
-	StringPrefixLenType = u16;
-	ArrayPrefixLenType = u16;
-}
-
-packet SampleBinary {
-	uint16 MsgType `" ++ [28040; 24687; 31867; 22411]%N ++ runes_of_ascii "`,
-	u16 BodyLenght @lengthOf(Body) `" ++ [28040; 24687; 20307; 38271; 24230]%N ++ runes_of_ascii "`,
-	match MsgType as Body {
-		1 : Logon,
-		2 : Logout,
-		3 : Heartbeat,
-		4 : RiskControlRequest,
-		5 : RiskControlResponse,
-	},
-	@calculatedFrom(""CRC32"")
-	u32 Ckecksum `" ++ [26657; 39564; 21644]%N ++ runes_of_ascii "`,
-}
-
-packet Logon {
-	@leftPad('0')
-	char[10] UserName `" ++ [29992; 25143; 21517]%N ++ runes_of_ascii "`,
-	string Password `" ++ [23494; 30721]%N ++ runes_of_ascii "`,
-	uint64 ClientId `" ++ [23458; 25143; 31471]%N ++ runes_of_ascii "ID`,
-	u16 HeartbeatInterval `" ++ [24515; 36339; 38388; 38548]%N ++ runes_of_ascii "`,
-}
-
-packet Logout {
-	@rightPad('0')
-	char[10] UserName `" ++ [29992; 25143; 21517]%N ++ runes_of_ascii "`,
-	uint64 ClientId `" ++ [23458; 25143; 31471]%N ++ runes_of_ascii "ID`,
-}
-
-packet Heartbeat {
-}
-
-packet RiskControlRequest {
-	string UniqueOrderId `" ++ [21807; 19968; 35746; 21333; 21495]%N ++ runes_of_ascii "`,
-	char[16] ClOrdID `" ++ [23458; 25143; 35746; 21333; 21495]%N ++ runes_of_ascii "`,
-	char[3] MarketID `" ++ [24066; 22330]%N ++ runes_of_ascii "id`,
-	char[12] SecurityID `" ++ [35777; 21048; 20195; 30721]%N ++ runes_of_ascii "`,
-	char Side `" ++ [20080; 21334; 26041; 21521]%N ++ runes_of_ascii "`,
-	char OrderType `" ++ [35746; 21333; 31867; 22411]%N ++ runes_of_ascii "`,
-	u64 Price `" ++ [20215; 26684]%N ++ runes_of_ascii "`,
-	u32 Qty `" ++ [25968; 37327]%N ++ runes_of_ascii "`,
-	repeat string ExtraInfo `" ++ [38468; 21152; 20449; 24687]%N ++ runes_of_ascii "`,
-	repeat SubOrder {
-		char[16] ClOrdID `" ++ [23376; 35746; 21333; 21495]%N ++ runes_of_ascii "`,
-		u64 Price `" ++ [23376; 35746; 21333; 20215; 26684]%N ++ runes_of_ascii "`,
-		u32 Qty `" ++ [23376; 35746; 21333; 25968; 37327]%N ++ runes_of_ascii "`,
-	},
-}
-
-packet RiskControlResponse {
-	string UniqueOrderId `" ++ [21807; 19968; 35746; 21333; 21495]%N ++ runes_of_ascii "`,
-	i32 Status `" ++ [29366; 24577]%N ++ runes_of_ascii "`,
-	string Msg `" ++ [32467; 26524; 20449; 24687]%N ++ runes_of_ascii "`,
-	repeat Detail,
-}
-
-packet Detail {
-	string RuleName `" ++ [35268; 21017; 21517; 31216]%N ++ runes_of_ascii "`,
-	u16 Code `" ++ [21407; 22240; 20195; 30721]%N ++ runes_of_ascii "`,
-}")).
-Eval vm_compute in ("<<<M13>>>" ++ check (runes_of_ascii "root
-    packet	roots{ // `tick` ""quote"" 'q'
-} options	{	asx =
-    ""\n"" ; x_y_z =
-3 ;rootA = ""CRC32""
-    ;float=char  T = false
-; }
-packet falsey {
-body { match u8x as /// triple
-string_{ [
-42,7 ,65535
-    ,
-    3 ,
-    42 ,7 , ""1""
-    , ""packet"" ]:
-    // `tick` ""quote"" 'q'
-    i64_ , [ ""abc""]
-    :  Foo ,	""a\\""
-    :
-roots ,
-    4294967296 :	stringy	}
-    , //x
-asx
-`{ , }` // " ++ [128512]%N ++ runes_of_ascii " emoji
-, i8
-charz@lengthOf( // trailing space 
-x_y_z)// trailing space 
-`a\` ,}
-    // @lengthOf(
-    , @tag( 65535 ) i64_ @lengthOf( tag )`u8 x,`
-// a // b
-//	t
-,Z9_@lengthOf( int )
-, @calculatedFrom( ""a\""b""
-)uint16  stringy @lengthOf( trueish ) , Logon	{string  Logon `say ""hi""` , packetx
-i64_ , match msg_type as	float
-{ ""\n"" : i64_,	[
-""" ++ [128512]%N ++ runes_of_ascii """
-    ]
-:
-metadata , // `tick` ""quote"" 'q'
-[
+Eval vm_compute in ("<<<M233>>>" ++ check (runes_of_ascii "
+packet rootA { char[ 0  ]  len @calculatedFrom(// `tick` ""quote"" 'q'
+""abc"" ) , u8
+    // trailing space 
+    uint8x @lengthOf(roots
+) // 50% %s
+`a\`
+, int
+    @calculatedFrom(""a\""b"" ) ,
+match msg_type as i8i8 { ""\" ++ [233]%N ++ runes_of_ascii """ :
 // trailing space 
-// " ++ [128512]%N ++ runes_of_ascii " emoji
-10, ""1""  ]
-:zchar ,
-}
-    , //x
-}
-    //x
-    , Packet
-    @calculatedFrom(""CRC32"" ), }
-")).
-Eval vm_compute in ("<<<M1891>>>" ++ check (runes_of_ascii "packet
-	falsey 
-{ 	 // `tick` ""quote"" 'q'
-repeat
-charz 
-    /// triple
-	float	// a // b
-    `tab	here`  ,
-
-    char[]
-    stringy , Logon	f32a ,
-
-    char[]
-string_	/// triple
-	  ,int16  _x
-    ``,  match 	 /// triple
-crc as	stringy {""abc""
-: Pad	[ ""\n"" ,
-    10
-, 4294967296
-
-,  0123456789 ,""abc"" ,
-    """ ++ [28040; 24687]%N ++ runes_of_ascii """
-] :i8i8
-	, 10	: 
-//x
-  	Header
-    ,10 :// c
-	calculatedFrom
-,0123456789 :
-
-    charz 10 
-:	repeatCount}
-
-, 
-leftPad
-@lengthOf(
-	u8x
-
-    )
-, 
-@lengthOf( a1
-)
-	repeat
-
-    x
-    body
-
+// a // b
+Header , 1 /// triple
+:
+    zchar
 ,
-    }	MetaData	string_ {float64 f32a
-
-    ,
-zchar[
-255
-
-    ] T,
-	u32 trueish
-
-    ,
-    BodyLength
-    roots `two words`,
-
-}
-	// " ++ [128512]%N ++ runes_of_ascii " emoji
-    //	t
-  packet
-    stringy
-{
-    zchar[ 255
-] 
-Foo
-,  }
-MetaData
-
-leftPad
-{ 
-}	//
-  options
-
-{
-
-    x  //x
-    = true	;
-    zchar  = """"
-
-    } //
-")).
-Eval vm_compute in ("<<<M1809>>>" ++ check (runes_of_ascii "root packet i64_ {
-    trueish,
-    @calculatedFrom(""abc"")
+[
+    ""\n"" ] :string_
+""\n""
+:i8i8 0123456789// c
+:Logon[00 ,007 , ""1"",
+""it's""//
+, ""// no comment"" ,0, ""a\\"" , 007 // " ++ [27880; 37322]%N ++ runes_of_ascii "
+] /// triple
+:BodyLength }
+,
+    match
+    rootA
+// @lengthOf(
+// " ++ [27880; 37322]%N ++ runes_of_ascii "
+as
+    chars
+{ 7 :
+    Header} , A Foo // `tick` ""quote"" 'q'
+`tab	here`
+,float64
+charz @calculatedFrom(""\" ++ [233]%N ++ runes_of_ascii """ ) ,	f32 tag , @lengthOf( x ) // `tick` ""quote"" 'q'
+@leftPad
+    (	'\x00' )	crc { repeat i16 options1 `tab	here` , match options1
+as charz { ""CRC32""	: u , 0 // " ++ [27880; 37322]%N ++ runes_of_ascii "
+: //
+charz
+""x y""
+    :	roots	, [ ""CRC32""
+,
+    """ ++ [233]%N ++ runes_of_ascii "t" ++ [233]%N ++ runes_of_ascii """
+]
+: i8i8
+,}
+    ,  repeat // " ++ [27880; 37322]%N ++ runes_of_ascii "
+falsey { match chars as
+asx	{ ""abc"" : stringy
+,
+    } ,match lengthOf as charz {
+    0123456789	:
+// c
+//
+o // " ++ [27880; 37322]%N ++ runes_of_ascii "
+,
+    ""// no comment""
+: chars ,[
+    // @lengthOf(
+    """"  , 7
+    , 255 ,00  , 42	]
+    :
+float  , } ,	match
+    a1 as lengthOf
+{ [ /// triple
+65535	, 1 ]: int
+""{,}"": calculatedFrom ,
+""`tick`"" :  float// @lengthOf(
+""// no comment""
+: Packet[ // c
+""\" ++ [233]%N ++ runes_of_ascii """ ,	""// no comment"",
+3	,
+    """ ++ [128512]%N ++ runes_of_ascii """
+    // packet A { u8 x, }
+    , 255]  : int ,
+//	t
+// trailing space 
+} ,},
+}	,}  options {
+msg_type= true
+lengthOf =zchar[
+    //
+    1 // @lengthOf(
+]; } root
+    //
+    packet packetx { i8 // 50% %s
+tag
+`line1
+line2`,
+    // @lengthOf(
+    }")).
+Eval vm_compute in ("<<<M1931>>>" ++ check (runes_of_ascii "root packet u8x {
+    // trailing space 
+    repeat u64 Pad,
+    i64_ @calculatedFrom(""x y"") `100% of %d`,
+    @calculatedFrom(""a	b"")
+    @lengthOf(Header)
+    @lengthOf(zchar)
+    i32 A @lengthOf(falsey),
+    repeat zchar[10] f32a `
+    `,
+    repeat f64 rootA `line1
+    line2`,// packet A { u8 x, }
+    match string_ as o {
+        65535 : options1,
+        // a // b
+        // " ++ [128512]%N ++ runes_of_ascii " emoji
+        ""// no comment"" : packetx,
+        ""\" ++ [233]%N ++ runes_of_ascii """ : lengthOf,
+        65535 : BodyLength,
+        ""packet"" : a1,
+    },
+    @tag(4294967296)
     @tag(7)
-    // c
-    int16 asx,
-    @calculatedFrom(""a\\"")
-    float32 crc @lengthOf(Foo),
-    @tag(42)
-    zchar[7] asx @lengthOf(calculatedFrom) `// not a comment`,//
-    repeat zchar[1] As,
-    chars `two words`,
-    @calculatedFrom(""1"")
-    @tag(0123456789)
-    @leftPad('0')
-    repeat char[] BodyLength `tab	here`,
+    @rightPad('\x00')
+    repeat uint64 i8i8,
+    char[42] string_ `// not a comment`,
 }
 
-MetaData u128 {
-    u16 i64_,
-    float32 asx `two words`,//
-    i64 leftPad,
-    zchar[00] _x,//
+MetaData pack {
+    x o `two words`,
+    x As,
+    uint64 BodyLength `// not a comment`,
+    x a1 ``,
+    T int `it's`,
 }
 
-MetaData chars {
-    Foo crc `say ""hi""`,
-    uint8 u `two words`,// " ++ [128512]%N ++ runes_of_ascii " emoji
-    f32 pack `crlf
-    line`,
-    string _x `" ++ [233]%N ++ runes_of_ascii "`,
+MetaData falsey {
+    Header BodyLength ``,
 }
 
-packet x_y_z {
+root packet trueish {
+    i16 trueish @calculatedFrom(""`tick`"") `line1
+    line2`,
+    f64 As,
+    string T @lengthOf(pack) `100% of %d`,
+    @lengthOf(matchKey)
+    repeat char[00] lengthOf `line1
+    line2`,
+    zchar[3] _x @calculatedFrom(""`tick`""),
+    // " ++ [27880; 37322]%N ++ runes_of_ascii "
+    // trailing space 
+    @tag(00)
+    //	t
+    zchar[4294967296] msg_type,
+    repeat body,
+    Logon,
+    @tag(1)
+    @calculatedFrom(""packet"")
+    zchar[3] Z9_,
+}")).
+Eval vm_compute in ("<<<M1792>>>" ++ check (runes_of_ascii "packet falsey {
+    /// triple
+    string i8i8 @calculatedFrom(""a\\""),// " ++ [128512]%N ++ runes_of_ascii " emoji
+    @calculatedFrom(""" ++ [233]%N ++ runes_of_ascii "t" ++ [233]%N ++ runes_of_ascii """)
+    repeat a1,
 }
 
 options {
-    calculatedFrom = ""CRC32""
-    crc = uint16;
-    u = false
-    Foo = char
-}// " ++ [128512]%N ++ runes_of_ascii " emoji")).
-Eval vm_compute in ("<<<M216>>>" ++ check (runes_of_ascii "// " ++ [27880; 37322]%N ++ runes_of_ascii "
-packet chars {match
-charz
-as
-    // trailing space 
-    A // trailing space 
-{0123456789: rootA ,
-    42
-:
-    x , ""1"" :Logon , 7 :u , ""\n"" : packetx , }, char[]MetaDataX
-@calculatedFrom(""""
-) `" ++ [233]%N ++ runes_of_ascii "`
-    // trailing space 
-    ,	@leftPad( ' ' )  char[] Foo,
-    crc , f64 string_ , // " ++ [128512]%N ++ runes_of_ascii " emoji
-char[]
-packetx,i64 u8x@lengthOf(  stringy ) `// not a comment`, repeat zchar {
-repeat
-A _x , lengthOf	@lengthOf( u8x
-) ,	match A as matchKey { 3 :Z9_ , ""// no comment"": As 00 //x
-:
-i64_ ,
-// a // b
-// " ++ [128512]%N ++ runes_of_ascii " emoji
-""a\\""  :i64_ , [ ""`tick`""/// triple
-] : T ,
-    }
-,
-// a // b
-// packet A { u8 x, }
-uint32 T
-`" ++ [28040; 24687; 31867; 22411]%N ++ runes_of_ascii "`
-    , }
-    , uint64
-    /// triple
-    charz
-, }")).
-Eval vm_compute in ("<<<M1425>>>" ++ check (runes_of_ascii "root packet asx {
-    tag body `u8 x,`,
-}
-
-packet string_ {
-    @lengthOf(len)
-    repeat zchar[42] u8x,
-    zchar[0] asx,
-}
-
-packet int {
-    repeat crc {
-        zchar float,
-        match i8i8 as rootA {
-            255 : lengthOf,
-            1 : lengthOf,
-            3 : roots,
-            3 : uint8x,
-            0 : As,
-            ""`tick`"" : repeatCount,
-        },
-        repeat char[] falsey,
-        u64 lengthOf,
-    },
-    @lengthOf(crc)
-    lengthOf i64_,
-    leftPad `crlf
-    line`,
-}
-
-root packet zchar {
-    f32 _x @calculatedFrom(""a\\""),
-}
-
-MetaData chars {
-    //
-}")).
-Eval vm_compute in ("<<<M65>>>" ++ check (runes_of_ascii "packet leftPad {
-match A as x {""`tick`""
-    : MetaDataX //
-, [""it's""
-,""\n"" ,
-""" ++ [28040; 24687]%N ++ runes_of_ascii """ ] :
-string_ , 0123456789 : o ,
-[
-""{,}"", ""x y"" ]
-:uint8x	} , char[3	] msg_type// " ++ [128512]%N ++ runes_of_ascii " emoji
-@lengthOf( u
-//	t
-// " ++ [27880; 37322]%N ++ runes_of_ascii "
-)`two words` ,
+    falsey = 0
+    // packet A { u8 x, }
     // c
-    repeat
-    int
-// packet A { u8 x, }
-// @lengthOf(
-Foo ,
-@rightPad
-(
-    )
-@rightPad
-( ' ' )
-    Foo charz`{ , }`, }
-MetaData A {
-zchar[
-0 ]A `{ , }`
-    , float32 a1
-    //
-    ,
-    char[]  pack , /// triple
-string body `" ++ [233]%N ++ runes_of_ascii "` , string chars `doc` , int _x`two words`
-,} options { Z9_ =
-    uint16 ; }")).
-Eval vm_compute in ("<<<M1466>>>" ++ check (runes_of_ascii "
-root
-packet
-body {
-    @lengthOf( int  
-      // @lengthOf(
-		//x
-    )string tag
-	,
-
-Pad BodyLength 
-, Z9_ { 
-    /// triple
-	u `` 
-,
-
-zchar[7  ] 
-u 
-, 
+    Foo = ""\" ++ [233]%N ++ runes_of_ascii """;
 }
 
-, uint64 calculatedFrom
-
-, } 
-packet 
-msg_type
-{ match
-
-    f32a// " ++ [128512]%N ++ runes_of_ascii " emoji
-      as
-
-    pack	{
-
-    ""// no comment"" :
-trueish ,
-
-    }
-// trailing space 
-    ,  @calculatedFrom(// @lengthOf(
-
-  ""abc""	) @leftPad (
-' '
-	) @calculatedFrom(
-	"""" //x
-		)// c
-	matchKey
-    T,// `tick` ""quote"" 'q'
-}
-")).
-Eval vm_compute in ("<<<M1672>>>" ++ check (runes_of_ascii "// top
-  MetaData
-        // c0
-
-leftPad 
-  // c1
-    {
-// c2
-
-chars  
-  // c3
-MetaDataX 
-// c4
-
-,  
-  // c5
-  } 
-	    // c6
-
-	packet
-    // c7
-
-  repeatCount 
-	    // c8
-	{
-
-// c9
-
-char[ 
-    // c10
-	255 
-
-// c11
-
-] 
-    // c12
-uint8x
-    // c13
-
-	`" ++ [233]%N ++ runes_of_ascii "`
-    // c14
-
-	,
-// c15
-    }
-    // c16
-    MetaData 
-
-    // c17
-  pack
-	// c18
-      {
-	    // c19
-    	As
-    // c20
-	Foo 
-      // c21
-    ,
-
-// c22
-}  
-      // c23")).
-Eval vm_compute in ("<<<M1335>>>" ++ check (runes_of_ascii "options {
-    LittleEndian = false;
-    StringPrefixLenType = u8;
-    ArrayPrefixLenType = u64;
-    FixedStringPadFromLeft = false;
-    FixedStringPadChar = ' ';
-}
-packet Reject {
-    repeat char[4] seqNo,
-    string Px,
-}
-root packet Trade {
-    @rightPad('0') char[2] msgKind,
-    repeat f64 price,
-    InAcct79 {
-        repeat Reject,
-        zchar[7] OrderId,
+root packet packetx {
+    metadata @lengthOf(asx),
+    // @lengthOf(
+    //	t
+    char[] BodyLength @calculatedFrom(""" ++ [233]%N ++ runes_of_ascii "t" ++ [233]%N ++ runes_of_ascii """) `" ++ [233]%N ++ runes_of_ascii "`,
+    metadata {
+        repeat rootA i64_ `a\`,
+        u8x chars,
+        repeat int64 string_ `{ , }`,
     },
-    Reject,
+    @tag(4294967296)
+    u64 tag @lengthOf(pack),// `tick` ""quote"" 'q'
+    u128 Z9_ ``,
+    repeat i16 lengthOf,
+    @calculatedFrom(""`tick`"")
+    // `tick` ""quote"" 'q'
+    // @lengthOf(
+    repeat char[00] Packet `it's`,
+    uint16 Pad,
+    @calculatedFrom(""a\\"")
+    match int as pack {
+        00 : u,
+        [""x y""] : asx,
+        """ ++ [28040; 24687]%N ++ runes_of_ascii """ : string_,
+        // trailing space 
+        1 : Pad,
+    },
+    @calculatedFrom(""" ++ [233]%N ++ runes_of_ascii "t" ++ [233]%N ++ runes_of_ascii """)
+    roots @calculatedFrom(""// no comment""),
 }
+
+packet zchar {
+    // 50% %s
+    @leftPad('0')
+    T `line1
+    line2`,
+}")).
+Eval vm_compute in ("<<<M1>>>" ++ check (runes_of_ascii "root packet
+    len { match x as metadata// " ++ [27880; 37322]%N ++ runes_of_ascii "
+{ [
+    1
+// packet A { u8 x, }
+//x
+,
+    0 ,	"""" , ""a	b"",00 ]
+    :	pack , [""// no comment"" , ""x y""
+, """ ++ [233]%N ++ runes_of_ascii "t" ++ [233]%N ++ runes_of_ascii """ ]:	Packet //
+,	} , repeat lengthOf u128, @calculatedFrom(
+    // " ++ [128512]%N ++ runes_of_ascii " emoji
+    ""it's""
+) @lengthOf( calculatedFrom
+// trailing space 
+// 50% %s
+) @lengthOf( u )	metadata
+{ int8 lengthOf
+    `crlf
+line` ,} ,
+@tag(// trailing space 
+4294967296 ) calculatedFrom {f32 i64_ // packet A { u8 x, }
+`" ++ [233]%N ++ runes_of_ascii "`,} ,@lengthOf(
+BodyLength  )	repeat//x
+char[65535 ] float
+// `tick` ""quote"" 'q'
+// c
+,@calculatedFrom(
+""\" ++ [233]%N ++ runes_of_ascii """) i64_ { match
+stringy as
+    _x{ //	t
+[ 4294967296 ,
+    3 ]
+:	i8i8
+, [ ""a\""b"" ]: x_y_z ,
+    3:len , }
+    , }  , @tag( // trailing space 
+0)
+zchar[
+    7
+] x_y_z ,@lengthOf( Header )
+repeat
+// 50% %s
+/// triple
+u64 As `
+` ,// " ++ [27880; 37322]%N ++ runes_of_ascii "
+@rightPad
+    ( ) /// triple
+@rightPad (  '\x00') u16
+Header	`{ , }` , }
 ")).
-Eval vm_compute in ("<<<M1381>>>" ++ check (runes_of_ascii "options  { LittleEndian
+Eval vm_compute in ("<<<M291>>>" ++ check (runes_of_ascii "MetaData len { float  roots
+    `u8 x,` ,	u32 int `" ++ [233]%N ++ runes_of_ascii "` , } root packet x{ @tag(1	)repeat charz
+, Pad @calculatedFrom( """ ++ [233]%N ++ runes_of_ascii "t" ++ [233]%N ++ runes_of_ascii """
+)
+,match int as
+    u8x { //x
+0 :
+leftPad, [  1,0123456789 , 10 ] : uint8x }
+,@leftPad( ) /// triple
+repeat u128
+    { f64 _x `two words`
+,T @calculatedFrom(""\n""
+) `u8 x,`
+    /// triple
+    ,match
+A as crc{ 3:
+    // a // b
+    leftPad
+    ,""" ++ [128512]%N ++ runes_of_ascii """ : falsey , [ """ ++ [233]%N ++ runes_of_ascii "t" ++ [233]%N ++ runes_of_ascii """ ,
+4294967296,
+""" ++ [28040; 24687]%N ++ runes_of_ascii """
+, ""a	b"" , 00 // a // b
+,""" ++ [233]%N ++ runes_of_ascii "t" ++ [233]%N ++ runes_of_ascii """  ] :
+    rootA	,  ""1""
+    :MetaDataX , } , f32
+o@calculatedFrom( ""// no comment"" ) `// not a comment`
+,// a // b
+} ,
+    chars@calculatedFrom( ""{,}""
+)  , @rightPad
+    (
+' ' ) @tag( 0 )  repeat BodyLength``,body ,
+}
+MetaData	T
+{len i8i8
+    , }options { f32a = true } packet falsey { }
+")).
+Eval vm_compute in ("<<<M1461>>>" ++ check (runes_of_ascii "
+packet float // @lengthOf(
+{}
+    root
 
-= 
-true
-	;
+packet Foo  {
 
+@calculatedFrom( ""\" ++ [233]%N ++ runes_of_ascii """
+	) 
+char[
+
+    7 ]
+u128, @calculatedFrom(
+	""1""
+)	repeat char[
+3
+] u `100% of %d`  , u128
+	// " ++ [27880; 37322]%N ++ runes_of_ascii "
+
+	,@tag(
+
+    3 
+)
+char[3]
+    rootA  `two words`  //x
+  ,@leftPad
+	(	) 
+metadata
+    @lengthOf( 	 //x
+leftPad	) , string  
+      // 50% %s
+
+	i8i8
+	@calculatedFrom(""{,}""
+) 
+, 
+repeat int32 T
+,
+@calculatedFrom(
+
+""abc"" 
+)
+
+    @lengthOf( 
+options1
+) @lengthOf( 
+options1	) match	T // " ++ [27880; 37322]%N ++ runes_of_ascii "
+		as body	// a // b
+		{
+
+    ""{,}""
+// `tick` ""quote"" 'q'
+  //	t
+	  :
+    // packet A { u8 x, }
+
+	//
+stringy
+    ,
+
+},  @lengthOf(Packet ) leftPad`tab	here`	,
     }
-    packet
+")).
+Eval vm_compute in ("<<<M1158>>>" ++ check (runes_of_ascii "// top
+MetaData // c0a
+  // c0b
+msg_type // c1
+{ int32
+    // c3
+As // c4a
+  // c4b
+`crlf
+line` // c5a
+  // c5b
+,
+    // c6
+MetaDataX // c7a
+  // c7b
+x
+    // c8
+`a\` // c9a
+  // c9b
+, // c10a
+  // c10b
+int8 // c11
+_x // c12a
+  // c12b
+, // c13a
+  // c13b
+char[]
+    // c14
+As
+    // c15
+`u8 x,` // c16a
+  // c16b
+,
+    // c17
+zchar[ // c18
+3 // c19
+] // c20
+uint8x // c21a
+  // c21b
+, // c22a
+  // c22b
+As // c23a
+  // c23b
+Foo
+    // c24
+, // c25a
+  // c25b
+} // c26
+root // c27a
+  // c27b
+packet // c28a
+  // c28b
+repeatCount // c29a
+  // c29b
+{ // c30
+} // c31
+")).
+Eval vm_compute in ("<<<M1605>>>" ++ check (runes_of_ascii "root packet x {
+}
 
-Logon	{
-u8
+options {
+    msg_type = false;
+    Z9_ = 0;
+    // c
+}
 
-x  , 
-}packet  Logout
-    {
-    u16
+MetaData metadata {
+}
 
-    reason	,
+packet _x {
+    @tag(65535)
+    match BodyLength as metadata {
+        10 : trueish,
+        [""{,}""] : u,
+    },
+    @calculatedFrom(""CRC32"")
+    @rightPad('0')
+    lengthOf string_,// 50% %s
+    @lengthOf(matchKey)
+    Packet {
+        lengthOf @lengthOf(uint8x) ``,
+        i8i8 {
+            repeat msg_type lengthOf,
+            // c
+            matchKey,
+        },
+        o @lengthOf(lengthOf),
+    },
+}
+//	t")).
+Eval vm_compute in ("<<<M1476>>>" ++ check (runes_of_ascii "// top
+options {
+    LittleEndian = true;
+}// c6
 
-    }root
+packet Sub {
+    // c9a
+    // c9b
+    u8 a,
+    // c12
+    @calculatedFrom(""CRC16"")
+    // c15a
+    // c15b
+    u64 SubSum,// c18a
+    // c18b
+}
 
-    packet
+// c19
+root packet Frame {
+    // c23
+    u16 MsgType,// c26
+    u16 BodyLen @lengthOf(Body),// c32a
+    // c32b
+    Sub Body,// c35
+    string note,
+    // c38
+    @calculatedFrom(""CRC16"")
+    // c41a
+    // c41b
+    u64 Checksum,
+    // c44
+    u8 tail,// c47
+}// c48a
+// c48b")).
+Eval vm_compute in ("<<<M1726>>>" ++ check (runes_of_ascii "
+packet  pack
+    { @rightPad(
+'\x00'
+	)
 
-Frame
-{ u8 
-Kind	, u8 Kind2
-
-    ,match Kind
-as Body {
-
-    1 :
-    Logon ,[
-2
+options1, repeat
+f32	Packet 
+`u8 x,` 
+,repeat 
+Logon{
+repeat a1{
+char[
+0
+] tag	, u64 leftPad
 
 ,
-3
-
-    ,
-	4]
-	: 
-Logout	,100
-    :
-
-Logon
-    ,
-
-    }  ,  match  Kind2
-as
-
-    Trailer{ 
-0: Logout  ,
-}	,	}
-")).
-Eval vm_compute in ("<<<M109>>>" ++ check (runes_of_ascii "MetaData Header{ } packet crc {	match zchar as leftPad // `tick` ""quote"" 'q'
-{ 7 : As 0 : Packet , [
-00 // " ++ [128512]%N ++ runes_of_ascii " emoji
+}// 50% %s
+, repeatCount,
+	repeat	// packet A { u8 x, }
+	  BodyLength 	 /// triple
+	,	}
+    ,  repeat char[] packetx	,  char[ 00
 ]
-: Pad ,
-//x
-//x
-""// no comment""
-    :
-    calculatedFrom
-,	3
-    :
-string_ , } ,falsey  packetx `crlf
-line` , // " ++ [27880; 37322]%N ++ runes_of_ascii "
-@tag( 42 )repeat
-u64 packetx,
-@calculatedFrom(  ""1"" ) repeat u16 calculatedFrom, }
+tag
+
+@lengthOf(  o ), } packet
+matchKey
+
+    { repeat	As
+u8x `it's`
+    ,}options
+
+    { } 
+MetaData	string_
+    {
+msg_type
+	Z9_ `line1
+line2` ,
+    }//x
 ")).
-Eval vm_compute in ("<<<M232>>>" ++ check (runes_of_ascii "options {  A = i16
-;
+Eval vm_compute in ("<<<M1365>>>" ++ check (runes_of_ascii "
+options	{
+    LittleEndian	=
+
+true;
+
+StringPrefixLenType
+	=
+	u32 ; ArrayPrefixLenType =
+	u64
+
+    ; } packet Logon  { string  OrderId
+,uint32 lastPx,
+    repeat	char[6
+    ]Side2,
+    i64
+
+Tail
+	, repeat  i8 f1
+
+    ,
+
     }
-    /// triple
+
+    packet
+Party
+
+    {
+
+}
+	packet
+    Quote{
+repeat 
+char[
+6	]clOrdID ,  repeat Logon 
+,
+
+    }
     root
 packet
-    rootA{
-    @tag( 7)int16 pack,Logon @calculatedFrom( ""a\""b"" ) `{ , }`
-    , @rightPad ( '\x00' )
-//
-//
-char[
-7
-    // `tick` ""quote"" 'q'
-    ]options1
-`tab	here`,@calculatedFrom(
-""" ++ [233]%N ++ runes_of_ascii "t" ++ [233]%N ++ runes_of_ascii """ )int @lengthOf(
-Packet
-) `crlf
-line`, }
+
+Order 
+{zchar[ 5
+    ] Acct,repeat f64 price , }
+
 ")).
-Eval vm_compute in ("<<<M80>>>" ++ check (runes_of_ascii "packet
-    len { // trailing space 
-repeat zchar f32a `// not a comment` , @tag( 255 )repeat  Pad { x T
-, } , @calculatedFrom(
-""{,}"") repeat
+Eval vm_compute in ("<<<M1911>>>" ++ check (runes_of_ascii "MetaData chars {
+    char[] f32a `" ++ [28040; 24687; 31867; 22411]%N ++ runes_of_ascii "`,
+    zchar[255] calculatedFrom,// @lengthOf(
+    a1 metadata,
     // a // b
-    leftPad { u64 u8x `tab	here` ,o Packet
-    ,char[] chars , } , @tag( 3 )float64
-    i8i8 , }
-")).
-Eval vm_compute in ("<<<M351>>>" ++ check (runes_of_ascii "MetaData leftPad// packet A { u8 x, }
-{ string u128 `say ""hi""` //
-, // c
-A packetx
-    //	t
-    , char[
-//
+    u i64_ `
+        `,
+    A asx `100% of %d`,
+}
+
+// `tick` ""quote"" 'q'
+MetaData int {
+    char[] As `// not a comment`,
+}
+
+MetaData Header {
+    int16 charz,
+    uint64 u8x,
+    string zchar,
+    float64 options1 `// not a comment`,
+    uint64 stringy,
+}")).
+Eval vm_compute in ("<<<M1569>>>" ++ check (runes_of_ascii "options {
+    rootA = i16;
+}
+
+MetaData len {
+    float64 pack `crlf
+    line`,
+    a1 roots,
+    int16 Header,
+    zchar[65535] charz,
+    Packet body `say ""hi""`,// `tick` ""quote"" 'q'
+    repeatCount x `line1
+    line2`,
+    // packet A { u8 x, }
+}
+
+options {
+    a1 = ""`tick`"";
+    float = """ ++ [233]%N ++ runes_of_ascii "t" ++ [233]%N ++ runes_of_ascii """;
+    Logon = zchar[00];
+    Header = '0';
+}")).
+Eval vm_compute in ("<<<M1954>>>" ++ check (runes_of_ascii "// top
+MetaData msg_type {
+    int32 As `crlf
+        line`,
+    // c6
+    MetaDataX x `a\`,// c10a
+    // c10b
+    int8 _x,// c13a
+    // c13b
+    char[] As `u8 x,`,
+    // c17
+    zchar[3] uint8x,// c22a
+    // c22b
+    As Foo,// c25a
+    // c25b
+}// c26
+
+root packet repeatCount {
+    // c30
+}// c31")).
+Eval vm_compute in ("<<<M272>>>" ++ check (runes_of_ascii "// c
+packet BodyLength
+{ @tag(
+    42) Header tag
+    `u8 x,`
+, } options { } packet string_
+{	float32
+rootA , uint8 MetaDataX `crlf
+line`,
+charz
+    // " ++ [128512]%N ++ runes_of_ascii " emoji
+    ,  @tag(  4294967296) @rightPad( '\x00' )	@tag(7	)
+    // c
+    u32 u128 //x
+@calculatedFrom(""\" ++ [233]%N ++ runes_of_ascii """ ) ,
+}")).
+Eval vm_compute in ("<<<M523>>>" ++ check (runes_of_ascii "packet
+    asx { @calculatedFrom(
+""""  ) @tag( 255 )repeat
 // packet A { u8 x, }
-42
-]
-leftPad
-    `tab	here` // trailing space 
-,i16 crc ,
-string uint8x // a // b
+// trailing space 
+int16 u8x
 ,
-}")).
-Eval vm_compute in ("<<<M1916>>>" ++ check (runes_of_ascii "packet _x {
-    repeat char[] matchKey,
-    @leftPad()
-    x_y_z T,
-    Pad {
-        zchar[1] rootA `tab	here`,
-    },
-    Foo @calculatedFrom(""""),
-}
+@tag(
+    //
+    007 )
+    @tag( 0
+    /// triple
+    ) @tag( 1) u
+    @lengthOf( T ),
+// `tick` ""quote"" 'q'
+//x
+@lengthOf( // " ++ [128512]%N ++ runes_of_ascii " emoji")).
+Eval vm_compute in ("<<<M254>>>" ++ check (runes_of_ascii "options
+    // 50% %s
+    { //
+u128=zchar[10	]	;	body = '0' Z9_ =float64 ; i8i8 = ""a\\""
+    ; } packet T  {
+char[ 42] asx
+    @calculatedFrom(/// triple
+""CRC32""
+),}
+// trailing space 
+// " ++ [128512]%N ++ runes_of_ascii " emoji
+root packet x { Pad u128 `100% of %d`
+, } 	 ")).
+Eval vm_compute in ("<<<M389>>>" ++ check (runes_of_ascii "asx
+    packet { @calculatedFrom(
+""""  ) @tag( 255 )repeat
+// packet A { u8 x, }
+// trailing space 
+int16 u8x
+,
+@tag(
+    //
+    007 )
+    @tag( 0
+    /// triple
+    ) @tag( 1) u
+    @lengthOf( T ),
+// `tick` ""quote"" 'q'
+//x
+} // " ++ [128512]%N ++ runes_of_ascii " emoji")).
+Eval vm_compute in ("<<<M518>>>" ++ check (runes_of_ascii "packet
+    asx { @calculatedFrom(
+""""  ) @tag( 255 )repeat
+// packet A { u8 x, }
+// trailing space 
+int16 u8x
+,
+@tag(
+    //
+    007 )
+    @tag( 0
+    /// triple
+    ) @tag( 1) u
+    @lengthOf( T )}
+// `tick` ""quote"" 'q'
+//x
+, // " ++ [128512]%N ++ runes_of_ascii " emoji")).
+Eval vm_compute in ("<<<M466>>>" ++ check (runes_of_ascii "packet
+    asx { @calculatedFrom(
+""""  ) @tag( 255 )repeat
+// packet A { u8 x, }
+// trailing space 
+int16 u8x
+,
+@tag(
+    //
+    007 )
+     0
+    /// triple
+    ) @tag( 1) u
+    @lengthOf( T ),
+// `tick` ""quote"" 'q'
+//x
+} // " ++ [128512]%N ++ runes_of_ascii " emoji")).
+Eval vm_compute in ("<<<M1713>>>" ++ check (runes_of_ascii "
 
-packet MetaDataX {
-    float64 body,
-}")).
-Eval vm_compute in ("<<<M1512>>>" ++ check (runes_of_ascii "packet A {
-    match k as n {
-        [
-            ""a"", ""bb"", 007, ""d"", ""e"",
-            66, ""g"", ""h"", 9, ""j"",
-            ""k"", 12
-        ] : B,
-        2 : C,
-    },
-}")).
-Eval vm_compute in ("<<<M421>>>" ++ check (runes_of_ascii "packet uint8x
-{ match pack
-    as msg_type msg_type	{
-    0123456789 :	float
-}
-,
-} packet //	t
-a1
-    { } options {packetx
-    = '\x00'	; u128= ""a	b""  ; }
-")).
-Eval vm_compute in ("<<<M518>>>" ++ check (runes_of_ascii "packet uint8x
-{ match pack
-    as msg_type	{
-    0123456789 :	float
-}
-,
-} packet //	t
-a1
-    { } options {packetx
-    = '\x00'	; u128 true ""a	b""  ; }
-")).
-Eval vm_compute in ("<<<M546>>>" ++ check (runes_of_ascii "packet uint8x
-{ match pack
-    as msg_type	{
-    0123456789 :	float
-}
-,
-} packet //	t
-a1
-    { } options {packetx
-    = '\x00'	; @ u128= ""a	b""  ; }
-")).
-Eval vm_compute in ("<<<M448>>>" ++ check (runes_of_ascii "packet uint8x
-{ match pack
-    as msg_type	{
-    0123456789 :	float
+  packet pack {  } options  { 
+_x
+
+    =
+""1"" ;
+
+    tag
+	=007
+
+    matchKey 
 =
-,
-} packet //	t
-a1
-    { } options {packetx
-    = '\x00'	; u128= ""a	b""  ; }
-")).
-Eval vm_compute in ("<<<M495>>>" ++ check (runes_of_ascii "packet uint8x
-{ match pack
-    as msg_type	{
-    0123456789 :	float
-}
-,
-} packet //	t
-a1
-    { } options {packetx
-     '\x00'	; u128= ""a	b""  ; }
-")).
-Eval vm_compute in ("<<<M668>>>" ++ check (runes_of_ascii "// @len'1'gthOf(
-packet i8i8 { u128 o , }
-options { MetaDataX = true;
-    BodyLength =""packet"" x_y_z= 007
-crc //x
-= ""abc"" ;
-    msg_type =
-i16 }")).
-Eval vm_compute in ("<<<M1917>>>" ++ check (runes_of_ascii "packet A {
-    match k as n {
-        [
-            ""a"", ""bb"", 007, ""d"", ""e"",
-            66, ""g"", ""h"", 9
-        ] : B,
-        2 : C,
-    },
-}")).
-Eval vm_compute in ("<<<M688>>>" ++ check (runes_of_ascii "// @lengthOf(
-packet i8i8 { u128 o , }
-options { MetaDataX = true;
-    BodyLength =""packet"" x_y_z= 007
-crc //x
-= ""abc"" ;
-    msg_type =
-i16")).
-Eval vm_compute in ("<<<M659>>>" ++ check (runes_of_ascii "// @lengthOf(
-packet i8i8 { u128 o , }
-options { MetaDataX = true;
-    " ++ [21517; 23383]%N ++ runes_of_ascii " =""packet"" x_y_z= 007
-crc //x
-= ""abc"" ;
-    msg_type =
-i16 }")).
-Eval vm_compute in ("<<<M1701>>>" ++ check (runes_of_ascii "packet A {
-    u16 len @lengthOf(body) `tab
-        	x`,
-    u32 crc @calculatedFrom(""CRC32"") `tab
-        	x`,
-    string body,
-}")).
-Eval vm_compute in ("<<<M173>>>" ++ check (runes_of_ascii "
-options
-    { zchar
-    = 10 ; matchKey = char[ /// triple
-1
-    ]
-u	= ""a\""b"" ;
-    x_y_z =
-    42 ; } MetaData Logon{ }")).
-Eval vm_compute in ("<<<M1157>>>" ++ check (runes_of_ascii "MetaData leftPad { chars MetaDataX , } packet // c
-repeatCount { char[ 255 ] uint8x `" ++ [233]%N ++ runes_of_ascii "` , } MetaData pack { As Foo , }")).
-Eval vm_compute in ("<<<M1654>>>" ++ check (runes_of_ascii "
+	""it's""
+	;
+charz =
+	uint16
 
-  packet
-A {
+; 
+}// @lengthOf(
+options  { msg_type = 
+007 ; stringy
 
-    match k 
-as n  { [ ""a""
-,22 
-, ""c c""	,  4
+    =
+""`tick`""
 
-,
-    ""e""
+    stringy = 007 ;
+} ")).
+Eval vm_compute in ("<<<M4>>>" ++ check (runes_of_ascii "MetaData
+    // " ++ [128512]%N ++ runes_of_ascii " emoji
+    u { float64 A , calculatedFrom zchar, char[1]
+repeatCount, int32
+x_y_z , u16 Packet`say ""hi""`
+    // " ++ [128512]%N ++ runes_of_ascii " emoji
     ,
-66
-,  ""g""
-]:
+    // a // b
+    }options
+{ repeatCount = ' ' }
+")).
+Eval vm_compute in ("<<<M87>>>" ++ check (runes_of_ascii "
+options { lengthOf = """ ++ [233]%N ++ runes_of_ascii "t" ++ [233]%N ++ runes_of_ascii """options1
+=
+    u32
+    // packet A { u8 x, }
+    ; Pad=// @lengthOf(
+'0'
+BodyLength
+    = 00
+}
+    packet
+x
+{ @rightPad( '0' ) string
+    Header ,}
+")).
+Eval vm_compute in ("<<<M485>>>" ++ check (runes_of_ascii "packet
+    asx { @calculatedFrom(
+""""  ) @tag( 255 )repeat
+// packet A { u8 x, }
+// trailing space 
+int16 u8x
+,
+@tag(
+    //
+    007 )
+    @tag( 0
+    /// triple
+    )")).
+Eval vm_compute in ("<<<M649>>>" ++ check (runes_of_ascii "MetaData u
+    { } MetaData o
+{ float uint8x
+`100% of %d` ,repeatCount u8x, string_ leftPad
+, i32
+    Foo , options x `two words` , calculatedFrom
+stringy `a\` ,
+}
+")).
+Eval vm_compute in ("<<<M573>>>" ++ check (runes_of_ascii "MetaData u
+    { } MetaData {
+o float uint8x
+`100% of %d` ,repeatCount u8x, string_ leftPad
+, i32
+    Foo , int64 x `two words` , calculatedFrom
+stringy `a\` ,
+}
+")).
+Eval vm_compute in ("<<<M571>>>" ++ check (runes_of_ascii "MetaData u
+    { } MetaData 
+{ float uint8x
+`100% of %d` ,repeatCount u8x, string_ leftPad
+, i32
+    Foo , int64 x `two words` , calculatedFrom
+stringy `a\` ,
+}
+")).
+Eval vm_compute in ("<<<M1724>>>" ++ check (runes_of_ascii "options
 
-B,
-    2
+{  }
+	options	{ MetaDataX 
+  // c
+=
+
+    char
+
+    ;
+
+    } MetaData 
+Pad
+
+{  i8 metadata 
+,
+    string
+
+    stringy  ,
+
+int8 
+As `{ , }`	, }
+")).
+Eval vm_compute in ("<<<M261>>>" ++ check (runes_of_ascii "packet u8x { char[]
+f32a @lengthOf(Foo ) `100% of %d` , repeat
+i8i8 {  A f32a , x `say ""hi""`,
+    // @lengthOf(
+    repeat body rootA `
+`
+    , }
+, }
+
+")).
+Eval vm_compute in ("<<<M317>>>" ++ check (runes_of_ascii "root	packet // " ++ [27880; 37322]%N ++ runes_of_ascii "
+matchKey {	Z9_ @calculatedFrom("""") ,  } MetaData pack
+    {
+    u32 leftPad, x zchar , uint32  i8i8	, u16
+    zchar ,
+    }
+")).
+Eval vm_compute in ("<<<M1663>>>" ++ check (runes_of_ascii "
+
+  packet A
+	{match k
+as
+	n
+
+{ [1,""bb""  ,
+	007
+    , ""d"",
+
+    5,
+
+    ""f""
+    ,  7,
+    ""h""
+, 9 ,  ""j"" 
+]
 
 :
-C
-} ,} ")).
-Eval vm_compute in ("<<<M943>>>" ++ check (runes_of_ascii "packet A {
-    u16 len @lengthOf(body) `a
+	B	,2 :
+C }
+,
 
-b`,
-    u32 crc @calculatedFrom(""CRC32"") `a
-
-b`,
-    string body,
+} ")).
+Eval vm_compute in ("<<<M1597>>>" ++ check (runes_of_ascii "packet A {
+    Inner {
+        u8 x `tab
+        	x`,
+        Deep {
+            u8 y `tab
+            	x`,
+        },
+    },
 }")).
-Eval vm_compute in ("<<<M535>>>" ++ check (runes_of_ascii "packet uint8x
-{ match pack
-    as msg_type	{
-    0123456789 :	float
+Eval vm_compute in ("<<<M1774>>>" ++ check (runes_of_ascii "packet asx {
+    f32 u @calculatedFrom(""packet""),
 }
-,
-} packet //	t
-a1
-    { } opti")).
-Eval vm_compute in ("<<<M484>>>" ++ check (runes_of_ascii "packet uint8x
-{ match pack
-    as msg_type	{
-    0123456789 :	float
-}
-,
-} packet //	t
-a1
-    { }")).
-Eval vm_compute in ("<<<M1436>>>" ++ check (runes_of_ascii "
 
-  options
-    {  Z9_
-    =
-	'\x00' }packet trueish {// " ++ [128512]%N ++ runes_of_ascii " emoji
-	u16
+MetaData tag {
+    zchar[007] pack,
+    zchar[00] len `
+    `,
+}")).
+Eval vm_compute in ("<<<M1216>>>" ++ check (runes_of_ascii "options { } options { MetaDataX =
+// c
+char ; } MetaData Pad { i8 metadata , string stringy , int8 As `{ , }` , }")).
+Eval vm_compute in ("<<<M1248>>>" ++ check (runes_of_ascii "options { } options { MetaDataX = char ; } MetaData Pad { i8 metadata , string stringy , int8 As `{ , }` ,
+// c
+}")).
+Eval vm_compute in ("<<<M900>>>" ++ check (runes_of_ascii "packet A {
+  match k as n {
+    [""a"", ""bb"", 007, ""d"", ""e"", 66, ""g"", ""h"", 9, ""j"", ""k""] : B
+    2 : C
+  },
+}")).
+Eval vm_compute in ("<<<M866>>>" ++ check (runes_of_ascii "packet A {
+  match k as n {
+    [""a"", ""bb"", ""c c"", ""d"", ""e"", ""f"", ""g"", ""h"", ""i""] : B
+    2 : C
+  },
+}")).
+Eval vm_compute in ("<<<M898>>>" ++ check (runes_of_ascii "packet A {
+  match k as n {
+    [1, 22, ""c c"", 4, 5, ""f"", 7, 8, ""i"", 10, 11] : B
+    2 : C
+  },
+}")).
+Eval vm_compute in ("<<<M889>>>" ++ check (runes_of_ascii "packet A {
+  match k as n {
+    [1, 22, 007, 4, 5, 66, 7, 8, 9, 10, 11] : B,
+    2 : C
+  },
+}")).
+Eval vm_compute in ("<<<M341>>>" ++ check (runes_of_ascii "MetaData rootA {
+uint8 msg_type ,zchar[
+    //
+    42 ]
+    As, T int
+    , } // a // b")).
+Eval vm_compute in ("<<<M834>>>" ++ check (runes_of_ascii "packet A {
+  match k as n {
+    [""a"", ""bb"", 007, ""d"", ""e"", 66] : B,
+    2 : C
+  },
+}")).
+Eval vm_compute in ("<<<M1481>>>" ++ check (runes_of_ascii "// top
+MetaData
+    // c0
+    tag 
 
-    calculatedFrom, }
+    // c1
+{ 
+	    // c2
+    	}
+    // c3
 ")).
-Eval vm_compute in ("<<<M642>>>" ++ check (runes_of_ascii "
-packet
-    asx {match u128 as lengthOf
-{'1'
-//	t
-// `tick` ""quote"" 'q'
-255 : x ,
-    } ,	}")).
-Eval vm_compute in ("<<<M559>>>" ++ check (runes_of_ascii "
-packet
-    { asx match u128 as lengthOf
+Eval vm_compute in ("<<<M901>>>" ++ check (runes_of_ascii "packet A { Inner { match k as n { [1,22,007,4,5,66,7,8,9,10,11] : B, }, }, }")).
+Eval vm_compute in ("<<<M805>>>" ++ check (runes_of_ascii "packet A {
+  match k as n {
+    [""a"", 22, ""c c"", 4] : B
+    2 : C
+  },
+}")).
+Eval vm_compute in ("<<<M29>>>" ++ check (runes_of_ascii "
+packet options1{ @tag(
+007 )repeat char[
+0123456789] Logon`doc` ,
+}")).
+Eval vm_compute in ("<<<M244>>>" ++ check (runes_of_ascii "root // " ++ [27880; 37322]%N ++ runes_of_ascii "
+packet lengthOf
 {
-//	t
-// `tick` ""quote"" 'q'
-255 : x ,
-    } ,	}")).
-Eval vm_compute in ("<<<M1474>>>" ++ check (runes_of_ascii "options {
-    charz = ""1""
-    _x = """ ++ [128512]%N ++ runes_of_ascii """
-    u = string;
-    stringy = """ ++ [28040; 24687]%N ++ runes_of_ascii """
 }
-// @lengthOf(")).
-Eval vm_compute in ("<<<M829>>>" ++ check (runes_of_ascii "packet A {
-  match k as n {
-    [""a"", ""bb"", ""c c"", ""d"", ""e"", ""f""] : B
-    2 : C
-  },
-}")).
-Eval vm_compute in ("<<<M469>>>" ++ check (runes_of_ascii "packet uint8x
-{ match pack
-    as msg_type	{
-    0123456789 :	float
-}
-,
-} packet")).
-Eval vm_compute in ("<<<M1252>>>" ++ check (runes_of_ascii "packet Inner {
-    u8 a,
-}
-root packet P {
-    repeat Inner items,
-    u8 x,
+    // " ++ [128512]%N ++ runes_of_ascii " emoji
+    options
+{}
+")).
+Eval vm_compute in ("<<<M1298>>>" ++ check (runes_of_ascii "root packet P {
+    repeat string ss,
+    repeat u16 ns,
 }
 ")).
-Eval vm_compute in ("<<<M827>>>" ++ check (runes_of_ascii "packet A {
-  match k as n {
-    [1, 22, 007, 4, 5, 66] : B
-    2 : C
-  },
-}")).
-Eval vm_compute in ("<<<M42>>>" ++ check (runes_of_ascii "
-packet roots
-    { len leftPad `// not a comment`	,} packet packetx{}")).
-Eval vm_compute in ("<<<M1643>>>" ++ check (runes_of_ascii "packet A {
-    match k as n {
-        1 : B,
-        // d
-    },
-}")).
-Eval vm_compute in ("<<<M204>>>" ++ check (runes_of_ascii "  options {// " ++ [128512]%N ++ runes_of_ascii " emoji
-Packet =// `tick` ""quote"" 'q'
-char[3 ]}")).
-Eval vm_compute in ("<<<M1097>>>" ++ check (runes_of_ascii "packet A {
-    match k as n {
-        1 : B,// c
-    },
-}")).
-Eval vm_compute in ("<<<M963>>>" ++ check (runes_of_ascii "MetaData M {
-    u8 x `tab
-	x`,
-    T t `tab
-	x`,
-}")).
-Eval vm_compute in ("<<<M375>>>" ++ check (runes_of_ascii "options {Foo = '0'	;	Pad = '0';	crc ='0' ; //	t
-}")).
-Eval vm_compute in ("<<<M1095>>>" ++ check (runes_of_ascii "packet A { char[ // a
- 3 // b
- ] // c
- x, }")).
-Eval vm_compute in ("<<<M971>>>" ++ check (runes_of_ascii "options {
-    a = ""\
-"";
-    b = ""\
-""
-}")).
-Eval vm_compute in ("<<<M132>>>" ++ check (runes_of_ascii "options
-    { Foo = 0123456789
-; }")).
-Eval vm_compute in ("<<<M766>>>" ++ check (runes_of_ascii "Dr1UAAa-*U|u3S?xE-Vr&9^'H>gI<.E")).
-Eval vm_compute in ("<<<M759>>>" ++ check (runes_of_ascii "= u64 ; u32 MetaData packet {")).
-Eval vm_compute in ("<<<M1080>>>" ++ check (runes_of_ascii "options { a = 1 // a
- ; }")).
-Eval vm_compute in ("<<<M1944>>>" ++ check (runes_of_ascii "// a
-// b
-packet A {
-}")).
-Eval vm_compute in ("<<<M1062>>>" ++ check (runes_of_ascii "// c x
-packet A {
-}")).
-Eval vm_compute in ("<<<M1016>>>" ++ check (runes_of_ascii "packet A {
+Eval vm_compute in ("<<<M139>>>" ++ check (runes_of_ascii "MetaData // " ++ [128512]%N ++ runes_of_ascii " emoji
+Logon {
+char[42 ]Packet , //x
 }
-// c" ++ [8233]%N)).
-Eval vm_compute in ("<<<M989>>>" ++ check (runes_of_ascii "packet A {
-}// c" ++ [133]%N)).
-Eval vm_compute in ("<<<M566>>>" ++ check (runes_of_ascii "
-packet
-    asx")).
-Eval vm_compute in ("<<<M561>>>" ++ check (runes_of_ascii "
-packet")).
-Eval vm_compute in ("<<<M111>>>" ++ check (runes_of_ascii "
+")).
+Eval vm_compute in ("<<<M943>>>" ++ check (runes_of_ascii "MetaData M {
+    u8 x `a
 
+b`,
+    T t `a
+
+b`,
+}")).
+Eval vm_compute in ("<<<M963>>>" ++ check (runes_of_ascii "packet A {
+    u8 x `100% of %s %d %v`,
+}")).
+Eval vm_compute in ("<<<M1115>>>" ++ check (runes_of_ascii "packet A { u8 x,// a
+
+
+// b
+
+ u8 y, }")).
+Eval vm_compute in ("<<<M332>>>" ++ check (runes_of_ascii "  MetaData
+u8x  {float32
+uint8x ,}")).
+Eval vm_compute in ("<<<M956>>>" ++ check (runes_of_ascii "root packet A {
+    u8 x `
+x`,
+}")).
+Eval vm_compute in ("<<<M1032>>>" ++ check (runes_of_ascii "packet A {
+ u8 x `d" ++ [8232]%N ++ runes_of_ascii "`, // c" ++ [8232]%N ++ runes_of_ascii "
+}")).
+Eval vm_compute in ("<<<M951>>>" ++ check (runes_of_ascii "packet A {
+    u8 x `
+x`,
+}")).
+Eval vm_compute in ("<<<M1143>>>" ++ check (runes_of_ascii "root // c
+packet a1 { }")).
+Eval vm_compute in ("<<<M52>>>" ++ check (runes_of_ascii "packet
+int {
+}
+//	t
 ")).
+Eval vm_compute in ("<<<M1045>>>" ++ check (runes_of_ascii "packet A {
+}
+// c" ++ [8287]%N)).
+Eval vm_compute in ("<<<M1038>>>" ++ check (runes_of_ascii "packet A {
+}// c" ++ [8239]%N)).
+Eval vm_compute in ("<<<M735>>>" ++ check ([0]%N ++ runes_of_ascii "k" ++ [23; 65533; 21; 31; 65533; 65533; 15473; 65533; 65533; 127; 822; 65533]%N)).
+Eval vm_compute in ("<<<M1014>>>" ++ check (runes_of_ascii "// c" ++ [5760]%N)).
